@@ -30,6 +30,10 @@ pub struct KyteaSpec {
     /// write failure-link (suffix) outputs on every state like a real KyTea automaton
     #[serde(default)]
     pub inherit_outputs: bool,
+    /// header flags do_ws / do_tags are written as 0 (a model trained with -nows / -notags); the
+    /// layout read at the pinned commit does not depend on them
+    #[serde(default)]
+    pub flags_off: bool,
 }
 
 struct W(Vec<u8>);
@@ -151,7 +155,7 @@ pub fn write_kytea(k: &KyteaSpec) -> Vec<u8> {
     let mut w = W(vec![]);
     w.0.extend(b"KyTea 0.4.7 B UTF-8\n");
     w.u8(1); // do_ws
-    w.u8(1); // do_tags
+    w.u8(if k.flags_off { 0 } else { 1 }); // do_tags
     w.u32(k.n_tags);
     w.u8(k.char_w);
     w.u8(3); // char_n
@@ -481,6 +485,7 @@ pub fn specs(tier: Tier) -> Vec<(String, KyteaSpec)> {
                     dict_vec: vec![],
                     extra_entry_weights: extra,
                     inherit_outputs: i % 2 == 0,
+                    flags_off: i % 3 == 1,
                 };
                 out.push((format!("ngrams map={mi} cw={cw} tw={tw} inh={} c={:?} t={:?}", (i % 2 == 0) as u8, cs.iter().map(|&j| cp[j]).collect::<Vec<_>>(), ts.iter().map(|&j| tp[j]).collect::<Vec<_>>()), k));
             }
@@ -503,6 +508,7 @@ pub fn specs(tier: Tier) -> Vec<(String, KyteaSpec)> {
                     dict_vec: vec![],
                     extra_entry_weights: 0,
                     inherit_outputs: i % 2 == 1,
+                    flags_off: i % 3 == 2,
                 };
                 out.push((format!("types map={mi} cw={cw} tw={tw} c={:?} t={:?}", cs.iter().map(|&j| cp[j]).collect::<Vec<_>>(), ts.iter().map(|&j| tp[j]).collect::<Vec<_>>()), k));
             }
@@ -546,6 +552,7 @@ pub fn specs(tier: Tier) -> Vec<(String, KyteaSpec)> {
                             dict_vec: dv,
                             extra_entry_weights: 0,
                             inherit_outputs: a % 2 == 0,
+                            flags_off: (a / 2 + i) % 2 == 1,
                         };
                         out.push((format!("dict map={mi} n_dicts={n_dicts} dict_n={dict_n} words={:?}", k.words), k));
                     }
